@@ -1,4 +1,4 @@
-import LinOp.C08.Proofs5
+import LinOp.C08.Proofs7
 import LinOp.C08.Known
 import LinOp.Generated.C08Consts
 /-!
@@ -234,9 +234,7 @@ theorem cg_Anorm_monotone {N : NumOps α} (hN : Lawful N) (P : Params α) (he : 
 unmasked `β` (`rᵀz ≥ eps`) consecutive residuals are `M⁻¹`-orthogonal, `r_{k+1}ᵀ z_k = 0`, consecutive
 directions are `A`-conjugate, `p_{k+1}ᵀ A p_k = 0`, and the invariant `Inv2` (true residual, `pᵀr = rᵀz`,
 `z = M⁻¹r`, `zᵀAp = pᵀAp`) propagates — for every `n`, either kernel.  It holds initially (`initCol_inv2`).
-Full claim of DESIGN `cg_invariants` (`r_iᵀ M⁻¹ r_j = 0`, `p_iᵀ A p_j = 0` for ALL `i < j`) is not closed:
-it needs the history-indexed induction over all earlier directions; what is proved is the `j = i + 1` case,
-which is what the A-norm decrease and the three-term relation use. -/
+This is the induction step; the all-pairs statement is `cg_invariants` below. -/
 theorem cg_orthogonality_partial {N : NumOps α} (hN : Lawful N) (P : Params α) (he : 0 < P.eps) {n : Nat}
     {s : Sys α n} (hA : LinSym s.amul) (hM : ∀ u v, dot u (preF P s v) = dot (preF P s u) v)
     (xs b : Vec α n) (hxs : s.amul xs = b) (iz : Bool) (c : Col α n)
@@ -244,6 +242,42 @@ theorem cg_orthogonality_partial {N : NumOps α} (hN : Lawful N) (P : Params α)
     Inv2 P s b (colStep N P s iz c) ∧ dot (colStep N P s iz c).r c.z = 0 ∧
       dot (colStep N P s iz c).p (s.amul c.p) = 0 :=
   colStep_conjugate hN P he hA hM xs b hxs iz c hc hp hz hI
+
+/-- **All-pairs orthogonality and conjugacy** (`cg_invariants` of the design, full): let `traj k` be the loop
+state of a column after `k` iterations of `linear_cg`.  If the first `m` iterations are regular steps
+(column not frozen, `pᵀAp ≥ eps`, `rᵀz ≥ eps`), `A` is symmetric linear and the preconditioner symmetric, then
+for every `k ≤ m` and EVERY earlier `i < k`: `r_kᵀ z_i = 0` (residuals mutually `M⁻¹`-orthogonal) and
+`p_kᵀ A p_i = 0` (directions mutually `A`-conjugate), and `Inv2` holds at `k`.  Induction over `k` with the
+invariant quantified over all earlier iterations; any `n`, either kernel. -/
+theorem cg_invariants {N : NumOps α} (hN : Lawful N) (P : Params α) (he : 0 < P.eps) {n : Nat}
+    {s : Sys α n} (hA : LinSym s.amul) (hM : ∀ u v, dot u (preF P s v) = dot (preF P s u) v)
+    (xs : Vec α n) (hxs : s.amul xs = (prep N P s).b) (m : Nat)
+    (hreg : ∀ j < m, Regular P s (traj N P s j)) :
+    ∀ k ≤ m, Inv2 P s (prep N P s).b (traj N P s k) ∧
+      ∀ i < k, dot (traj N P s k).r (traj N P s i).z = 0 ∧
+               dot (traj N P s k).p (s.amul (traj N P s i).p) = 0 :=
+  full_orthogonality hN P he hA hM xs hxs m hreg
+
+/-- **Exact termination at `n`** (`cg_exact_at_n`): if the first `n` iterations of an `n × n` column are
+regular steps, the residual after them is exactly zero, i.e. `A x_n = b̂`; if moreover `A` is injective
+(positive definite) `x_n` is the solution.  Consequently every symmetric preconditioner for which the `n`
+steps are regular leads to the same `x_n` (`cg_precond_same_limit` in exact arithmetic).  Proof: the `n`
+residuals `r_0 … r_{n−1}` have a diagonal, positive Gram matrix against `z_0 … z_{n−1}` (`cg_invariants`), hence
+are a basis of the `n`-dimensional space, and `r_n` is orthogonal to all `z_j`. -/
+theorem cg_exact_at_n {N : NumOps α} (hN : Lawful N) (P : Params α) (he : 0 < P.eps) {n : Nat}
+    {s : Sys α n} (hA : LinSym s.amul) (hM : ∀ u v, dot u (preF P s v) = dot (preF P s u) v)
+    (xs : Vec α n) (hxs : s.amul xs = (prep N P s).b)
+    (hreg : ∀ j < n, Regular P s (traj N P s j)) :
+    (traj N P s n).r = 0 ∧ s.amul (traj N P s n).x = (prep N P s).b ∧
+      ((∀ v, s.amul v = 0 → v = 0) → (traj N P s n).x = xs) := by
+  have h0 := exact_at_n hN P he hA hM xs hxs hreg
+  have hres := cg_residual_invariant N P hA.toLin (prep N P s).isZero n
+  have hAx : s.amul (traj N P s n).x = (prep N P s).b := by
+    have : (prep N P s).b - s.amul (traj N P s n).x = 0 := by rw [← h0]; exact hres.symm
+    exact (sub_eq_zero.mp this).symm
+  refine ⟨h0, hAx, fun hinj => ?_⟩
+  have : s.amul (xs - (traj N P s n).x) = 0 := by rw [hA.toLin.map_sub, hxs, hAx, sub_self]
+  exact (sub_eq_zero.mp (hinj _ this)).symm
 
 /-! ### the whole call -/
 
@@ -359,8 +393,9 @@ preconditioned operator started at the normalised right-hand side.  Proved here:
 that makes `T` the matrix of `A M⁻¹` in the residual basis — for consecutive iterations with non-zero step
 lengths, `A z₁ = −(1/α₁) r₂ + (1/α₁ + β₀/α₀) r₁ − (β₀/α₀) r₀`, whose middle coefficient is the diagonal
 entry written by the code (`cg_tridiag_entries`) and whose outer coefficients multiply to the square
-`β₀/α₀²` of its off-diagonal entry.  Missing: mutual `M⁻¹`-orthogonality of all residuals (only
-`p_kᵀ r_{k+1} = 0` is proved, in `cg_Anorm_step`), which needs the full conjugacy induction. -/
+`β₀/α₀²` of its off-diagonal entry.  Mutual `M⁻¹`-orthogonality of all residuals is `cg_invariants`.  Missing:
+assembling the two into `QᵀBQ = T` for the sqrt-normalised residuals, and Cauchy interlacing for the Ritz values
+(both checked on the implementation only). -/
 theorem cg_tridiag_eq_lanczos_partial (N : NumOps α) (P : Params α) {n : Nat} {s : Sys α n} (hA : Lin s.amul)
     (iz : Bool) (c0 : Col α n)
     (h0 : (colStep N P s iz c0).alpha ≠ 0) (h1 : (colStep N P s iz (colStep N P s iz c0)).alpha ≠ 0) :
@@ -374,8 +409,8 @@ theorem cg_tridiag_eq_lanczos_partial (N : NumOps α) (P : Params α) {n : Nat} 
 Stretch goal, stated only: `cg_chebyshev_rate`
   for `A`, `M⁻¹` symmetric positive definite, κ the condition number of `M⁻¹A`, and regular steps 0..j−1,
   `errA s xs x_j ≤ (2 ((√κ − 1)/(√κ + 1))^j)² · errA s xs x_0`.
-Not proved.  Missing: (i) full conjugacy `p_iᵀ A p_j = 0` (i<j) and the Krylov-optimality `cg_optimal`
-(x_j minimises the A-norm error over x_0 + K_j); (ii) the spectral theorem for `M⁻¹ᐟ² A M⁻¹ᐟ²` over the abstract
+Not proved.  Missing: (i) the Krylov-optimality `cg_optimal` (x_j minimises the A-norm error over x_0 + K_j;
+full conjugacy, its main ingredient, is `cg_invariants`); (ii) the spectral theorem for `M⁻¹ᐟ² A M⁻¹ᐟ²` over the abstract
 field; (iii) the Chebyshev polynomial bound on [λmin, λmax].  What is proved instead is the exact per-step
 decrease `(rᵀz)²/pᵀAp` (`cg_Anorm_step`) and monotonicity (`cg_Anorm_monotone`); the bound itself is checked on
 the implementation against dense references on every run.
